@@ -5,13 +5,14 @@ from harness.common import sim
 
 PROP = "C56"
 LEAN_MODULES = ["LunaVerif.Props.C56", "LunaVerif.Props.C56Stream", "LunaVerif.Props.C56Spi",
-                "LunaVerif.Lemmas.C56StreamAny", "LunaVerif.Props.C56Uart", "LunaVerif.Props.C56Cdc"]
+                "LunaVerif.Lemmas.C56StreamAny", "LunaVerif.Props.C56Uart", "LunaVerif.Props.C56Cdc",
+                "LunaVerif.Props.C56SpiBits"]
 DRIVER = "Driver/C56.lean"
 REQUIRED_THEOREMS = ["captures_depth_consecutive_samples", "readback_nth", "trigger_during_capture_ignored",
                      "pretrigger_delay", "stream_readout_exact", "stream_readout_complete",
                      "stream_readout_returns_idle", "spi_readout_words", "stream_readout_any", "uart_readout_exact",
                      "uart_readout_complete", "uart_readout_decoded", "decode_wave", "mb_line", "mb_bytes",
-                     "queue_conservation", "cdc_readout_in_order", "cdc_readout_complete"]
+                     "queue_conservation", "cdc_readout_in_order", "cdc_readout_complete", "spi_readout_bits"]
 RULE = ("cases = (sample_depth in {1,2,5,32,100} (+3,4,7,8,16,33 thorough), samples_pretrigger 0..3, domain sync/usb, "
         "three captured signals of 1+8+5 bits) x pattern: triggers sparse / held high / bursts / random incl. during "
         "capture; inputs random every cycle or a counter; captured_sample_number sweeps and random reads, also while "
@@ -39,7 +40,7 @@ ASSUMPTIONS = ["sample_depth >= 1", "captured_sample_number < sample_depth (addr
                "SyncSerialILA monitor (judged chip-select windows): no capture running and no trigger from 2 cycles before "
                "chip select rises until it falls, chip select low for the 4 cycles before, SPI clock idle at the level "
                "that makes the first edge the device's output edge, SCK high/low >= 1 cycle each",
-               "spi_readout_words: bits_per_word >= 4 (the class always uses >= 32), chip select active high (the class "
+               "spi_readout_words / spi_readout_bits: bits_per_word >= 4 (the class always uses >= 32), chip select active high (the class "
                "does not forward cs_idles_high), no trigger from the end of the capture to the end of the window, chip "
                "select low for at least 4 cycles before the window",
                "stream_readout_exact: the trigger is seen in a wrapper-idle state (WIdle: holds at reset, is kept by idle "
@@ -56,18 +57,19 @@ ASSUMPTIONS = ["sample_depth >= 1", "captured_sample_number < sample_depth (addr
                "not proved, validated on every simulated two-clock trace; any interleaving of the two clocks' edges; "
                "o_domain must not be the literal name 'sync' when domain != 'sync' (the class's DomainRenamer would "
                "rename the FIFO's read side too)"]
-PARTIAL = ("the IntegratedLogicAnalyzer core, the StreamILA read-out (same clock domain) and the SyncSerialILA read-out "
-           "are modelled, co-simulated and proved; for SyncSerialILA the theorem (spi_readout_words) says which word "
-           "the SPI interface loads into its transmit register for each word of a chip-select window (recorded sample k "
-           "for word k); that the transmit register is shifted out MSB first on sdo is C50's theorem about the same "
-           "SpiDevice.step function, the two are not combined into one bit-level statement (the monitor checks the "
-           "bit-level view on the real gateware). AsyncSerialILA (UART read-out) is modelled, co-simulated and proved "
-           "down to the tx waveform (uart_readout_exact / _complete / _decoded); not proved there: an upper bound on the "
-           "duration of the read-out (the complete statement assumes a history at whose end wrapper and transmitter are "
-           "idle again). StreamILA with o_domain != domain is proved over an abstract in-order-queue model of Amaranth's "
-           "AsyncFIFOBuffered (cdc_readout_in_order / _complete: any clock interleaving, any w_rdy / r_rdy behaviour within "
-           "the queue contract); that the library FIFO's Gray-code implementation meets that contract for all histories, "
-           "and that it eventually delivers (liveness), is validated on the simulated two-clock traces only")
+PARTIAL = ("the IntegratedLogicAnalyzer core and all three read-out wrappers are modelled, co-simulated and proved: StreamILA "
+           "(same clock domain), SyncSerialILA down to the sdo pin (spi_readout_bits), AsyncSerialILA down to the tx "
+           "waveform (uart_readout_exact / _complete / _decoded), StreamILA with o_domain != domain down to the output-domain "
+           "stream (cdc_readout_in_order / _complete). What remains: (1) AsyncSerialILA: no upper bound on the duration "
+           "of the read-out is proved - the 'all depth samples, each once' form assumes a history at whose end wrapper and "
+           "transmitter are idle again (the prefix form holds for every history); (2) the clock-domain crossing is proved "
+           "over an abstract in-order-queue model of Amaranth's AsyncFIFOBuffered (any clock interleaving, any w_rdy / "
+           "r_rdy behaviour within the queue contract); that the library FIFO's Gray-code implementation meets that "
+           "contract for all histories, and that it eventually delivers (liveness), is validated on the simulated "
+           "two-clock traces only; (3) the UART / CDC theorems consider one capture per history (no new trigger accepted "
+           "after the hand-over cycle); consecutive captures compose through stream_readout_returns_idle and the general "
+           "start state of uart_readout_exact (bytes pending / owed at the start are carried through), but a whole-history "
+           "multi-capture statement is not written out")
 
 WIDTHS = [1, 8, 5]
 TOTAL = sum(WIDTHS)
